@@ -70,7 +70,9 @@ def shape_at_failure(line, ans, w):
     if step - 1 < len(parts) and " # " in parts[step - 1]:
         sh = parts[step - 1].split(" # ", 1)[1]
         mm = re.search(r"A%d=(\S+)" % a, sh)
-        if mm and mm.group(1).startswith("S"):
+        # (with an unknown element size the load must forget its left-hand side: a wrong value
+        #  there is not the known finding)
+        if mm and re.match(r"S-?\d+$", mm.group(1)):
             return w + " [load from a smashed array of the adaptive domain: A%d=%s]" % (a, mm.group(1))
     return w
 
